@@ -656,7 +656,7 @@ func run(a hx.RunArgs) error {
 		"integer boundary values {min,min+1,-1,0,1,2,max-1,max}, values near powers of two / square roots of the 64-bit bounds, random values, NULL), " +
 		"integer literals (the planbuilder's literal typing boundaries) and decimal literals of scale 1-6, op in + - * DIV % /, plus unary minus on every " +
 		"integer column type; a case is non-trivial when no operand is NULL or 0"
-	r := hx.NewRand(a.Seed)
+	r := hx.NewRand(a.Seed).Fork() // Fork: hx.NewRand(seed+1) is hx.NewRand(seed) shifted by one draw
 	e := eng.New("d")
 	ctx := e.Ctx()
 	tys := otys()
